@@ -32,8 +32,11 @@ def env():
     return e
 
 
-def sh(cmd, stdin_data=None, timeout=60):
-    return subprocess.run(cmd, env=env(), input=stdin_data, stdin=None if stdin_data is not None else subprocess.DEVNULL,
+def sh(cmd, stdin_data=None, timeout=60, extra_env=None):
+    e = env()
+    if extra_env:
+        e.update(extra_env)
+    return subprocess.run(cmd, env=e, input=stdin_data, stdin=None if stdin_data is not None else subprocess.DEVNULL,
                           stdout=subprocess.PIPE, stderr=subprocess.PIPE, timeout=timeout)
 
 
@@ -518,7 +521,13 @@ def c12(ctx):
                 for rep in range(reps):
                     arc = os.path.join(d, f"a-{buffers}-{inp}-{rep}.cba")
                     cmd = [bita, "compress", "--buffered-chunks", str(buffers)] + cargs + pargs
-                    r = sh(cmd + (["-i", src, arc] if inp == "file" else [arc]), stdin_data=None if inp == "file" else sb)
+                    # runtime worker count: tokio honours TOKIO_WORKER_THREADS; rotate 1 / 2 / default
+                    workers = [None, "1", "2"][(rep + buffers) % 3]
+                    xenv = {"TOKIO_WORKER_THREADS": workers} if workers else None
+                    # thorough: perturb syscall timing of every 6th run (delay each write(2) by 300 us)
+                    if thorough and (rep + buffers) % 6 == 5:
+                        cmd = ["strace", "-f", "-qq", "-o", "/dev/null", "-e", "trace=write", "-e", "inject=write:delay_enter=300"] + cmd
+                    r = sh(cmd + (["-i", src, arc] if inp == "file" else [arc]), stdin_data=None if inp == "file" else sb, extra_env=xenv)
                     n += 1
                     if r.returncode != 0:
                         viol.add("valid-compress-failed", {"source": sname, "chunker": cname, "compression": pname, "buffers": buffers, "input": inp, "stderr": r.stderr.decode()[-200:]})
@@ -539,7 +548,7 @@ def c12(ctx):
                 samples.append({"source": key[0], "chunker": key[1], "compression": key[2], "archive_sha256": h})
     shutil.rmtree(root, ignore_errors=True)
     cov = {"evaluations": runs, "distinct_nontrivial": len(distinct), "groups": len(groups), "exhaustive": True, "samples": samples,
-           "rule": "real binary on the real multi-thread runtime: for each of 24 (source, chunker, compression) groups the archive from buffered-chunks {1,2,3,8,64} x input {file, pipe} x 3 (thorough 6) repeated runs must be one byte string; non-trivial = distinct (group, archive) pairs"}
+           "rule": "real binary on the real multi-thread runtime: for each of 24 (source, chunker, compression) groups the archive from buffered-chunks {1,2,3,8,64} x input {file, pipe} x 3 (thorough 6) repeated runs with TOKIO_WORKER_THREADS rotating over {default, 1, 2} (thorough: every 6th run with each write(2) delayed by 300 us through strace fault injection) must be one byte string; non-trivial = distinct (group, archive) pairs"}
     return result(ctx["pid"], "exploration", cov, viol, t0, ["A5: repeated real runs sample the OS scheduler; the exhaustive schedule coverage is the in-process gate explorer's"])
 
 
